@@ -37,8 +37,10 @@ func c18Byte(seed uint64, pos int64) byte {
 }
 
 type c18Policy struct {
-	Kind string `json:"kind"` // all | zero-then-all | one | half | hold | mixed
+	Kind string `json:"kind"` // all | zero-then-all | one | half | hold | mixed | record | record-head | tail
 	Hold int    `json:"hold"` // hold: consume nothing until this many bytes are buffered
+	Rec  int    `json:"rec"`  // record / record-head: only whole records of this size are consumed
+	Head int    `json:"head"` // record-head: ... plus this many bytes of the next record; tail: bytes left behind
 }
 
 type c18Recv struct {
@@ -56,10 +58,11 @@ type c18Recv struct {
 	calls     int
 	maxWindow int
 	// bidirectional family: per-callback processing time and acknowledgements written back from the callback
-	sleep    time.Duration
-	ackEvery int
-	acksSent int
-	ackErr   error
+	lastLen, lastStart int // geometry after the previous callback's commitRead
+	sleep              time.Duration
+	ackEvery           int
+	acksSent           int
+	ackErr             error
 }
 
 func (c *c18Recv) failf(format string, a ...interface{}) {
@@ -80,15 +83,38 @@ func (c *c18Recv) onEventData(buf []byte, conn eventConn) error {
 	if len(buf) < c.prevLeft {
 		c.failf("C18: callback buffer shorter than the unconsumed bytes|callback %d: %d bytes shown, %d were left unconsumed", c.calls, len(buf), c.prevLeft)
 	}
-	for i := range buf {
+	// Every new byte is compared with the stream.  The unconsumed bytes are compared completely whenever they may
+	// have been moved (buffer length or start offset changed since the previous callback) and on every 16th
+	// callback; otherwise (very large pending windows, many callbacks) their first and last 512 bytes and 256
+	// sampled positions are compared.
+	oldN := minInt(c.prevLeft, len(buf))
+	fullOld := oldN <= 1<<16 || len(h.readBuffer) != c.lastLen || h.readStartOff != c.lastStart || c.calls%16 == 0
+	check := func(i int) bool {
 		if buf[i] != c18Byte(c.seed, c.consumed+int64(i)) {
 			what := "new"
 			if i < c.prevLeft {
 				what = "unconsumed"
 			}
 			c.failf("C18: callback buffer differs from the stream (%s bytes)|callback %d: byte %d of the window (stream position %d) is wrong", what, c.calls, i, c.consumed+int64(i))
-			break
+			return false
 		}
+		return true
+	}
+	okSoFar := true
+	if fullOld {
+		for i := 0; i < oldN && okSoFar; i++ {
+			okSoFar = check(i)
+		}
+	} else {
+		for i := 0; i < 512 && okSoFar; i++ {
+			okSoFar = check(i) && check(oldN-1-i)
+		}
+		for j := 0; j < 256 && okSoFar; j++ {
+			okSoFar = check(c.r.intn(oldN))
+		}
+	}
+	for i := oldN; i < len(buf) && okSoFar; i++ {
+		okSoFar = check(i)
 	}
 	total := atomic.LoadInt64(&c.total)
 	if c.consumed+int64(len(buf)) > total && total > 0 {
@@ -110,6 +136,16 @@ func (c *c18Recv) onEventData(buf []byte, conn eventConn) error {
 	case c.pol.Kind == "hold":
 		if len(buf) >= c.pol.Hold {
 			k = len(buf)
+		}
+	case c.pol.Kind == "record": // a consumer of fixed-size records: whole records only
+		k = len(buf) / c.pol.Rec * c.pol.Rec
+	case c.pol.Kind == "record-head": // ... that also takes the first bytes of the next record once a record is complete
+		if len(buf) >= c.pol.Rec {
+			k = minInt(len(buf), len(buf)/c.pol.Rec*c.pol.Rec+c.pol.Head)
+		}
+	case c.pol.Kind == "tail": // waits for a lot of data, then leaves a tail of fixed size behind
+		if len(buf) >= c.pol.Rec {
+			k = len(buf) - minInt(len(buf), c.pol.Head)
 		}
 	default: // mixed
 		switch c.r.intn(6) {
@@ -134,8 +170,14 @@ func (c *c18Recv) onEventData(buf []byte, conn eventConn) error {
 		c.Cbs = append(c.Cbs, [4]int{len(h.readBuffer), h.readStartOff, len(buf), k})
 	}
 	conn.commitRead(k)
+	// oracle: the offsets stay inside the buffer whatever was consumed (growth and shrink included)
+	if h.readStartOff < 0 || h.readStartOff > h.readEndOff || h.readEndOff > len(h.readBuffer) {
+		c.failf("C18: read offsets outside the buffer after commitRead|callback %d consumed %d of %d: readStartOff=%d readEndOff=%d len(readBuffer)=%d",
+			c.calls, k, len(buf), h.readStartOff, h.readEndOff, len(h.readBuffer))
+	}
 	c.consumed += int64(k)
 	c.prevLeft = len(buf) - k
+	c.lastLen, c.lastStart = len(h.readBuffer), h.readStartOff
 	if c.ackEvery > 0 && c.calls%c.ackEvery == 1%c.ackEvery {
 		if err := conn.write(c18Ack); err != nil {
 			c.ackErr = err
@@ -249,8 +291,14 @@ func c18Features(c *c18Case) {
 		if cb[2] >= 1<<20 {
 			f["window>=1MiB"] = true
 		}
-		if cb[0] > 4<<20 {
+		if cb[0] > venvInt("VERIF_SHRINK_LIMIT", 4<<20) {
 			f["buffer>4MiB"] = true
+			if cb[3] < cb[2] && cb[3] > 0 {
+				f["partial-consumption-above-shrink-limit"] = true
+				if cb[1]+cb[3] > cb[0]/2 {
+					f["unread-tail-above-midpoint"] = true
+				}
+			}
 		}
 	}
 	if c.SndBuf > 0 && c.SndBuf < 16384 {
@@ -267,6 +315,133 @@ func c18Features(c *c18Case) {
 	for k := range f {
 		c.Feat = append(c.Feat, k)
 	}
+}
+
+// ---------------------------------------------------------------------------------------------
+// record consumers above the shrink limit: the harness delivers the read-ready events itself (the REAL
+// onReadReady / maybeExpandReadBuffer / commitRead and real read(2) on a socketpair, in this goroutine and under
+// recover), so the buffer grows past the shrink limit, is consumed partially with the unread tail at many
+// positions (above / below the midpoint), goes on receiving, and shrinks again.  Sizes scale with the three
+// literals of the source (VERIF_INIT_LEN / VERIF_THRESHOLD / VERIF_SHRINK_LIMIT, passed by the plugin).
+// ---------------------------------------------------------------------------------------------
+func c18Record(id int, r *vrand) (*c18Case, error) {
+	c := &c18Case{ID: id, Kind: "record"}
+	limit := venvInt("VERIF_SHRINK_LIMIT", 4<<20)
+	var rec int
+	switch r.intn(5) {
+	case 0:
+		rec = limit + 1 + r.intn(64)
+	case 1:
+		rec = limit + limit/5 + r.intn(1000)
+	case 2:
+		rec = limit + limit/2 + 7
+	case 3:
+		rec = 2*limit - 3 - r.intn(100)
+	default:
+		rec = limit/2 + limit/8 + r.intn(limit) // records around the limit
+	}
+	switch r.intn(4) {
+	case 0, 1:
+		c.Policy = c18Policy{Kind: "record", Rec: rec}
+	case 2:
+		c.Policy = c18Policy{Kind: "record-head", Rec: rec, Head: r.pick([]int{1, 10, 1000, limit / 4, limit/2 + 5})}
+	default:
+		c.Policy = c18Policy{Kind: "tail", Rec: rec, Head: r.pick([]int{1, 10, 1000, 70000, limit / 2, limit/2 + 1})}
+	}
+	nrec := 3 + r.intn(2)
+	c.Total = int64(nrec)*int64(rec) + int64(r.intn(3)*r.intn(5000))
+	// IO pattern: the bytes arrive in steps (each step = bytes written, then read-ready events until all of it is read)
+	rem := c.Total
+	first := int64(rec) - int64(r.pick([]int{0, 1, 10, 1000}))
+	steps := []int64{first, int64(r.pick([]int{1, 10, 1010, 5000}))}
+	for _, st := range steps {
+		rem -= st
+	}
+	for rem > 0 {
+		st := int64(1 + r.intn(2*rec))
+		if r.chance(30) {
+			st = int64(1 + r.intn(2000))
+		}
+		if st > rem {
+			st = rem
+		}
+		steps = append(steps, st)
+		rem -= st
+	}
+	for _, st := range steps {
+		c.Sizes = append(c.Sizes, int(st))
+	}
+	a, b, err := c18Pair(0, 0)
+	if err != nil {
+		return nil, err
+	}
+	defer a.Close()
+	ensureDefaultDispatcherInit()
+	d, ok := defaultDispatcher.(*epollDispatcher)
+	if !ok {
+		return nil, fmt.Errorf("default dispatcher is not the epoll dispatcher")
+	}
+	h := d.newConnection(b).(*connEventHandler)
+	syscall.SetNonblock(h.fd, true) // not registered with epoll: read-ready events are delivered below
+	wfd := int(a.Fd())
+	syscall.SetNonblock(wfd, true)
+	c.InitLen = len(h.readBuffer)
+	seed := r.u64()
+	rc := &c18Recv{seed: seed, pol: c.Policy, r: newVrand(r.u64()), done: make(chan struct{})}
+	atomic.StoreInt64(&rc.total, c.Total)
+	h.callback = rc
+	panicked := ""
+	readReady := func() {
+		defer func() {
+			if x := recover(); x != nil {
+				panicked = fmt.Sprintf("%v (len(readBuffer)=%d readStartOff=%d readEndOff=%d)", x, len(h.readBuffer), h.readStartOff, h.readEndOff)
+			}
+		}()
+		h.onReadReady()
+	}
+	pos := int64(0)
+	chunk := make([]byte, 128<<10)
+steps:
+	for _, st := range steps {
+		for left := st; left > 0; {
+			n := int64(len(chunk))
+			if left < n {
+				n = left
+			}
+			for i := int64(0); i < n; i++ {
+				chunk[i] = c18Byte(seed, pos+i)
+			}
+			w, err := syscall.Write(wfd, chunk[:n])
+			if err != nil && err != syscall.EAGAIN {
+				return nil, err
+			}
+			if w > 0 {
+				pos += int64(w)
+				left -= int64(w)
+			}
+			readReady()
+			rc.mu.Lock()
+			bad := len(rc.fail) > 0
+			rc.mu.Unlock()
+			if panicked != "" || bad {
+				break steps
+			}
+		}
+	}
+	rc.mu.Lock()
+	if panicked != "" {
+		rc.failf("C18: panic in onReadReady|%s", panicked)
+	} else if rc.consumed != c.Total && len(rc.fail) == 0 {
+		rc.failf("C18: bytes consumed differ from bytes written|%d vs %d", rc.consumed, c.Total)
+	}
+	c.Cbs = rc.Cbs
+	c.Trunc = rc.calls > len(rc.Cbs)
+	c18AddFail(c, rc.fail)
+	rc.mu.Unlock()
+	h.file.Close()
+	c18Features(c)
+	c.Feat = append(c.Feat, "record-consumer")
+	return c, nil
 }
 
 func c18Stream(id int, r *vrand, big bool) (*c18Case, error) {
@@ -857,6 +1032,7 @@ func TestVerif_C18(t *testing.T) {
 	n := venvInt("VERIF_N", 60)
 	nbig := venvInt("VERIF_NBIG", 2)
 	nbidir := venvInt("VERIF_NBIDIR", 3)
+	nrec := venvInt("VERIF_NREC", 8)
 	out := vopenOut(t)
 	defer out.close()
 	r := newVrand(seed)
@@ -871,6 +1047,8 @@ func TestVerif_C18(t *testing.T) {
 			c, err = c18Bidir(id, r, []string{"unix", "tcp", "unix"}[(i-1)%3])
 		case i < nbidir+1+nbig:
 			c, err = c18Stream(id, r, true)
+		case i < nbidir+1+nbig+nrec:
+			c, err = c18Record(id, r)
 		case i%5 == 4:
 			c, err = c18Concurrent(id, r)
 		default:
